@@ -103,6 +103,10 @@ def cases(tier, rng):
                 yield gen_case(T, kind, 66000, seed, 997 if thorough else 4999, f"long-{kind}-T{T}-past-capacity")
         yield gen_case(T, "rand", CAP - T, rng.randrange(1 << 30), 4999, f"exactly-capacity-T{T}")
         yield gen_case(T, "skew", CAP - T + 1, rng.randrange(1 << 30), 4999, f"capacity-plus-one-T{T}")
+    # refused updates (out-of-range symbols) cost nothing: after k of them the tree still accepts exactly 65535 - T updates
+    for T, k in ((314, 9), (2, 1), (5, 40), (100, 3)):
+        exp = CAP - T
+        yield Case(f"!huff.gen {T} rand {CAP - T + 3} {rng.randrange(1 << 30)} 4999 {k}", check=tree_check(exp, 2), tag=f"refusals-then-capacity-T{T}")
     for _ in range(60 if thorough else 16):
         T = rng.choice([2, 3, 4, 7, 13, 50, 314])
         yield gen_case(T, rng.choice(["rand", "skew", "roundrobin", "sawtooth", "single"]), rng.randrange(1, 9000), rng.randrange(1 << 30),
